@@ -141,7 +141,40 @@ DualCells ==
   {Prog("recv", "dual-same", <<Set("r1", "=", RLit(a)), Set("r2", "=", RLit(b))>>,
         <<Set("b1", "=", Grp(Cmp(op, Id("r1"), Id("r2")))), Set("b2", "=", Grp(Cmp(DualOp(op), Id("r2"), Id("r1"))))>>)
      : a \in SubSec, b \in SubSec, op \in {"<", ">", "<=", ">="}}
-CrossCells == XIntCells \cup XFloatCells \cup XRTimeCells \cup RTimeCmpCells \cup DualCells
+\* COMPUTED durations with a part finer than a millisecond (no literal can express them), then every observation:
+\* STRING = RTIME, header = RTIME, concatenation, +=, log, copy + negation, ordering against the neighbouring
+\* whole-millisecond literals (== / != against them is UNSPEC: emitted, only totality is observed)
+XMake == { <<Set("r1", "=", RLit(2000)), Set("r1", "/=", ILit(3))>>,      \* 666.666.. ms
+           <<Set("r1", "=", RLit(1000)), Set("r1", "/=", ILit(7))>>,      \* 142.857.. ms
+           <<Set("r1", "=", RLit(10)), Set("r1", "/=", ILit(3))>>,        \* 3.333.. ms
+           <<Set("r1", "=", RLit(1)), Set("r1", "*=", FLit(1, 1))>>,      \* 0.5 ms
+           <<Set("r1", "=", RLit(5)), Set("r1", "*=", FLit(1, 2))>>,      \* 1.25 ms
+           <<Set("r1", "=", RLit(1000)), Set("r1", "/=", FLit(3, 1))>>,   \* 666.666.. ms (FLOAT divisor 1.5)
+           <<Set("r1", "=", RLit(-2000)), Set("r1", "/=", ILit(3))>>,     \* -666.666.. ms
+           <<Set("r1", "=", RLit(2000)), Set("r1", "/=", ILit(-3))>>,
+           <<Set("r1", "=", RLit(-1)), Set("r1", "*=", FLit(1, 1))>>,     \* -0.5 ms
+           <<Set("r1", "=", RLit(2000)), Set("r1", "/=", ILit(3)), Set("r2", "=", Neg(Id("r1"))), Set("r1", "=", Id("r2"))>>,
+           <<Set("r1", "=", RLit(1999)), Set("r1", "/=", ILit(2))>> }      \* 999.5 ms: the rounding boundary of the seconds digit
+XObserve == { Set("s1", "=", Id("r1")), Set("h1", "=", Id("r1")), Set("s1", "=", Cat(<<SLit(A), Id("r1"), SLit(B)>>)),
+              Set("h1", "=", Cat(<<Id("r1"), SLit(<<" ">>), Id("r1")>>)), Set("s2", "+=", Id("r1")), Log(Id("r1")), Log(Cat(<<SLit(A), Id("r1")>>)),
+              Set("r2", "=", Id("r1")) } \cup
+            { Set("b1", "=", Grp(Cmp(op, Id("r1"), RLit(n)))) : op \in {"<", ">", "<=", ">=", "==", "!="}, n \in {666, 667, 142, 143, 3, 4, 0, 1, -666, -667, 999, 1000} }
+XSubMsCells == {Prog("recv", "rtime-subms", mk, <<o, Set("s2", "=", Id("r1"))>>) : mk \in XMake, o \in XObserve}
+
+\* INTEGER comparisons between neighbours beyond 2^53 and at the ends of int64 (values given as 64-bit patterns)
+P53 == Shl(Bits(1), 53)
+MaxBits == Flip(MinBits)
+BigVals == { P53, BitsAdd(P53, Bits(1)), BitsAdd(P53, Bits(2)), BitsNeg(P53), BitsNeg(BitsAdd(P53, Bits(1))),
+             MaxBits, BitsAdd(MaxBits, Bits(-1)), MinBits, BitsAdd(MinBits, Bits(1)), Bits(0), Bits(1), Bits(-1) }
+BigLit(bs) == [k |-> "bits", bits |-> bs]
+BigCmpCells ==
+  {Prog("recv", "bigint-cmp", <<Set("i1", "=", BigLit(a))>> \o r.setup, <<Set("b1", "=", Grp(Cmp(op, Id("i1"), r.e)))>>)
+     : a \in BigVals, op \in {"==", "!=", "<", ">", "<=", ">="},
+       r \in {Opd(<<>>, BigLit(b)) : b \in BigVals} \cup {Opd(<<Set("i2", "=", BigLit(b))>>, Id("i2")) : b \in BigVals}} \cup
+  {Prog("recv", "dual-same", <<Set("i1", "=", BigLit(a)), Set("i2", "=", BigLit(b))>>,
+        <<Set("b1", "=", Grp(Cmp(op, Id("i1"), Id("i2")))), Set("b2", "=", Grp(Cmp(DualOp(op), Id("i2"), Id("i1"))))>>)
+     : a \in BigVals, b \in BigVals, op \in {"<", ">", "<=", ">="}}
+CrossCells == XIntCells \cup XFloatCells \cup XRTimeCells \cup RTimeCmpCells \cup DualCells \cup XSubMsCells \cup BigCmpCells
 
 \* a prepared store on which conditions of every kind have a known value (computed by the evaluator, not assumed here)
 CondStore == << Set("b1", "=", BLit(TRUE)), Set("s1", "=", SLit(A)), Set("h1", "=", SLit(E)), Set("i1", "=", ILit(5)),
@@ -367,7 +400,7 @@ GInitial(u) == << Set("i1", "=", GIntLit(u)), Set("i2", "=", GIntLit(u)), Set("f
 (* state machine *)
 \* cells and shapes are enumerated family by family, so that TLC's workers share the evaluation
 OpOf(p) == p.stmts[Len(p.stmts)].op
-CellKeys == {<<"int", op>> : op \in IntOps} \cup {<<"float", op>> : op \in FloatOps} \cup {<<"rtime", "">>, <<"bool", "">>, <<"int-from-float", "">>, <<"int-x-float", "">>, <<"float-x-int", "">>, <<"rtime-x", "">>, <<"rtime-cmp", "">>, <<"dual", "">>, <<"dual-same", "">>} \cup
+CellKeys == {<<"int", op>> : op \in IntOps} \cup {<<"float", op>> : op \in FloatOps} \cup {<<"rtime", "">>, <<"bool", "">>, <<"int-from-float", "">>, <<"int-x-float", "">>, <<"float-x-int", "">>, <<"rtime-x", "">>, <<"rtime-cmp", "">>, <<"dual", "">>, <<"dual-same", "">>, <<"rtime-subms", "">>, <<"bigint-cmp", "">>} \cup
             {<<"str-local", op>> : op \in {"=", "+="}} \cup {<<"str-header", sc>> : sc \in Scopes} \cup {<<"unset", "">>, <<"log", "">>}
 CellFam(key) ==
   CASE key[1] = "int"        -> {p \in IntCells : p.tag = "int" /\ OpOf(p) = key[2]}
